@@ -70,10 +70,23 @@ type State struct {
 	H      *Heap
 	F      *FrameState
 	Panics []panicEntry
+	fG     *term.Term // guard for which fF was computed
+	fF     *facts
 }
 
 func (s *State) fork(cond *term.Term) *State {
-	return &State{G: term.And(s.G, cond), H: s.H.Fork(), F: s.F.clone(), Panics: append([]panicEntry(nil), s.Panics...)}
+	s.facts()
+	return &State{G: term.And(s.G, cond), H: s.H.Fork(), F: s.F.clone(), Panics: append([]panicEntry(nil), s.Panics...), fG: s.fG, fF: s.fF}
+}
+
+// facts returns the interval facts of the current guard, derived incrementally from the last guard seen.
+func (s *State) facts() *facts {
+	if s.fF != nil && s.fG == s.G {
+		return s.fF
+	}
+	s.fF = factsExtend(s.fG, s.fF, s.G)
+	s.fG = s.G
+	return s.fF
 }
 
 type Outcome struct {
@@ -211,6 +224,31 @@ func (ex *Exec) feasibleWith(g, cond *term.Term, useSolver bool) bool {
 	return ex.solverFeasible(term.And(g, cond), useSolver)
 }
 
+// feasibleSt is feasibleWith on a state's guard, using the state's incremental facts.
+func (ex *Exec) feasibleSt(st *State, cond *term.Term, useSolver bool) bool {
+	if cond.IsFalse() || st.G.IsFalse() {
+		return false
+	}
+	f := st.facts()
+	switch f.decide(cond) {
+	case 0:
+		return false
+	case 1:
+		return true
+	}
+	if cond.Op == term.OAnd {
+		for _, c := range cond.Args {
+			if f.decide(c) == 0 {
+				return false
+			}
+		}
+	}
+	if cf := factsOf(cond); !cf.consistent() {
+		return false
+	}
+	return ex.solverFeasible(term.And(st.G, cond), useSolver)
+}
+
 func (ex *Exec) solverFeasible(g *term.Term, useSolver bool) bool {
 	if useSolver && ex.UseSolver && ex.Inc != nil {
 		ex.FeasQ++
@@ -271,7 +309,7 @@ func (ex *Exec) decideCond(st *State, c *term.Term) int8 {
 	if c.IsConst() {
 		return int8(c.Val)
 	}
-	return factsOf(st.G).decide(c)
+	return st.facts().decide(c)
 }
 
 // concreteInt tries to obtain a concrete integer for t under st.G.
@@ -282,7 +320,7 @@ func (ex *Exec) concreteInt(st *State, t *term.Term, signed bool) (int, bool) {
 		}
 		return int(t.Val), true
 	}
-	r := factsOf(st.G).rangeOf(t)
+	r := st.facts().rangeOf(t)
 	if r.lo == r.hi {
 		return int(r.lo), true
 	}
@@ -538,6 +576,7 @@ func (ex *Exec) globalObj(st *State, g *ssa.Global) int {
 	if id, ok := ex.Globals[g]; ok {
 		if !st.H.Has(id) {
 			// created lazily in another state: re-create with the zero value
+			st.H.own()
 			st.H.objs[id] = &Obj{V: ex.zeroGlobal(st, g), owner: st.H.owner}
 		}
 		return id
@@ -829,10 +868,11 @@ func (ex *Exec) branch(fr *frame, st *State, b *ssa.BasicBlock, c *term.Term, st
 	J := fr.ipd[b]
 	visits := st.F.Unroll[b]
 	useSolver := fr.loops[b] || visits > 0
+	st.facts()
 	conds := [2]*term.Term{c, term.Not(c)}
 	var feas [2]bool
 	for k := 0; k < 2; k++ {
-		feas[k] = ex.feasibleWith(st.G, conds[k], useSolver)
+		feas[k] = ex.feasibleSt(st, conds[k], useSolver)
 	}
 	if visits+1 > ex.MaxUnroll && feas[0] && feas[1] {
 		abort("UNWIND-INCOMPLETE", "branch at %s block %d (%s) still two-way feasible after %d visits", fr.fn, b.Index, ex.pos(b.Instrs[len(b.Instrs)-1]), ex.MaxUnroll)
@@ -865,6 +905,9 @@ func (ex *Exec) branch(fr *frame, st *State, b *ssa.BasicBlock, c *term.Term, st
 	}
 	merged := ex.mergeStates(fr, arrived, J)
 	for _, m := range merged {
+		if m.fF == nil {
+			m.fG, m.fF = st.fG, st.fF
+		}
 		// the region opened by this branch is closed: nesting depth goes back to what it was
 		if visits == 0 {
 			delete(m.F.Unroll, b)
